@@ -93,6 +93,14 @@ structure In where
   eventsOk : Bool := true
   masterKeyOk : Bool := true
 
+/-- `CheckAsyncSwitchAllowed` (async.go): `delay` = result of `CalcReplMonTSDelay` in seconds (none = a read failed) -/
+def checkAsyncSwitchAllowed (cfg : Cfg) (sw : Manager.Switch) (delay : Option Int) : Bool :=
+  if cfg.async && sw.causeAuto && cfg.asyncAllowedLag > 0 then
+    match delay with
+    | none => false
+    | some d => decide (d * 1000000000 < cfg.asyncAllowedLag)
+  else false
+
 /-- `activeNodes` after "filter out old master as may hang" -/
 def workList (i : In) : List String :=
   if i.sw.causeAuto && i.sw.from_ == i.oldMaster then i.active.filter (· != i.oldMaster) else i.active
